@@ -189,6 +189,12 @@ def run(ctx, out, tier):
             if b is None:
                 continue
             region = ctx.facts.with_descendants(b)
+            if meth["name"] == "walk":
+                # a walk that returns an iterator type of the crate's own: its `next` is part of the walk
+                from rules.C12 import walk_iterator_next
+                nxt = walk_iterator_next(ctx, b)
+                if nxt is not None:
+                    region = list(region) + list(ctx.facts.with_descendants(nxt))
             if meth["name"] == "read_to_string":
                 for rb in region:
                     for bi, t in rb.calls():
